@@ -131,6 +131,14 @@ CHECKS = {
             "the mnemonic must be a function of the answer only (three PRNG states, two processes), every entropy bit must take both "
             "values, all results distinct, call histories must not carry state, and with the real source reseeding must not repeat.",
             "DESIGN.md §4 C08", "statistical quality of the kernel CSPRNG is out of scope; sources bypassing the three patched functions would show as 'too few bytes requested'"),
+    "C13": ("model_checking", "E2 bfs + E3 sched",
+            "explicit-state BFS over all API-call histories on shared real objects (depth 3/4) + stateless exploration of all thread interleavings up to a preemption bound under a settrace baton scheduler",
+            "(E2) every history of up to 3 (thorough 4) calls from a 19-operation alphabet on one shared wallet and the node objects "
+            "earlier calls returned: each transition must equal the stateless reference result, generator cursors follow the model, "
+            "root untouched, every children-list entry correct. (E3) real threads on shared wallet/nodes and shared pure helpers: all "
+            "interleavings with <=2 (thorough 3) preemptions at package-state lines and <=1 preemption at every line of every package "
+            "module; each schedule replayable by its choice list; determinism asserted on every root execution.",
+            "DESIGN.md §4 C13", "not modelled: switches inside one source line, inside C code or third-party ecdsa/hashlib calls; >3 threads; histories beyond the depth bound"),
 }
 
 NOT_YET = "check not built yet in this session (work in progress; see DESIGN.md §9 build order)"
